@@ -23,7 +23,8 @@ STATUS = """
 if "**Status (as built).**" not in s:
     s = s.replace("Conventions used below\n", STATUS + "\nConventions used below\n", 1)
 else:
-    s = re.sub(r"\n> \*\*Status \(as built\)\.\*\*.*?\(§3\)\.\n", lambda _m: STATUS, s, count=1, flags=re.S)
+    # the block is the run of "> " lines that starts with the status marker
+    s = re.sub(r"\n> \*\*Status \(as built\)\.\*\*[^\n]*\n(?:> [^\n]*\n)*", lambda _m: STATUS, s, count=1)
 
 ASBUILT = {
     "C01": "Built as designed (`props/c01.py`). Two generators are mixed: the random grammar and a *constructive ping-pong* generator "
